@@ -148,7 +148,7 @@ RearrFamily(z) ==
     \cup {R1("sort", f, s, ax, 0, 0, <<>>, "-") : f \in {"func"}, ax \in {NoAx} \cup {AxInt(a) : a \in AxisInts(Len(s))}}
     \cup {R1("sort", "func", s, NoAx, 0, 0, <<>>, "default")}
     \cup {R1("partition", "func", s, NoAx, k, 0, <<>>, "default") : k \in {0, 1}}
-    \cup {R1("clip", f, s, NoAx, 0, 0, <<>>, "-") : f \in {"func", "method"}}
+    \cup {R1("clip", f, s, NoAx, 0, 0, <<>>, b) : f \in {"func", "method"}, b \in {"-", "upper", "lower", "kwmax", "kwmin", "kwboth"}}   \* one bound None / by keyword
     \* casts: widening / identity / narrowing (float64 -> float32, float16), and real <-> complex via the kind (complex128 -> float64 is handled
     \* by NumPy with a ComplexWarning: the real part)
     \cup {R1("astype", "method", s, NoAx, 0, 0, <<>>, t) : t \in {"float64", "float32", "float16", "complex128"}}
@@ -176,7 +176,7 @@ JoinFamily(z) ==
     \cup {J1("stack", s, AxInt(a), n, m, "list") : a \in (-Len(s) - 1)..Len(s), n \in 1..3, m \in Masks(3)}
     \cup {J1(p, s, NoAx, n, m, st) : p \in {"vstack", "hstack", "column_stack", "row_stack"}, n \in 1..3, m \in Masks(3), st \in {"list", "tuple"}}
     \cup {J1("append", s, ax, 2, m, "-") : ax \in {NoAx} \cup {AxInt(a) : a \in AxisInts(Len(s))}, m \in 1..3}
-    \cup {J1("array", s, NoAx, n, m, st) : n \in 1..3, m \in Masks(3), st \in {"list", "nested", "ndmin", "bare"}}
+    \cup {J1("array", s, NoAx, n, m, st) : n \in 1..3, m \in Masks(3), st \in {"list", "nested", "ndmin", "bare", "listndmin1", "listndmin3", "listdtype", "tuple"}}
     \cup {J1(p, s, NoAx, n, m, "-") : p \in {"r_", "c_"}, n \in 1..3, m \in Masks(3)}
     \cup {J1("select", s, NoAx, 2, m, "-") : m \in 1..7}
     : s \in JShapes}
@@ -340,6 +340,9 @@ FftFamily(z) ==
     \cup {F1kw(p, sh, AxInt(a), n, nm, k) : p \in {"fft", "ifft"}, a \in AxisInts(Len(sh)), n \in {2, 4, 6}, nm \in {"none", "ortho"}, k \in Kinds \cap {"rr", "cc"}}
     \cup {F1kw("rfft", sh, AxInt(a), n, nm, "rr") : a \in AxisInts(Len(sh)), n \in {2, 4, 6}, nm \in {"none", "ortho"}}
     \cup {F1kw("irfft", sh, AxInt(a), n, nm, "cc") : a \in AxisInts(Len(sh)), n \in {2, 4, 6}, nm \in {"none", "ortho"}}
+    \* the index shifts that go with the transforms, on real and on COMPLEX arrays (axes: none / one / a pair)
+    \cup {F1(p, sh, ax, 0, <<>>, <<>>, "shift", k) : p \in {"fftshift", "ifftshift"}, ax \in {NoAx} \cup {AxInt(a) : a \in AxisInts(Len(sh))},
+             k \in Kinds \cap {"rr", "cc"}}
     \cup {F1("rfft", sh, AxInt(a), n, <<>>, <<>>, nm, "rr") : a \in AxisInts(Len(sh)), n \in {0, 2, 4, 6}, nm \in FNorms}
     \cup {F1("irfft", sh, AxInt(a), n, <<>>, <<>>, nm, "cc") : a \in AxisInts(Len(sh)), n \in {0, 2, 4, 6}, nm \in FNorms}
     \cup (IF Len(sh) >= 2 THEN
@@ -417,12 +420,13 @@ SpecialBig == {"tanh", "arctan", "arcsinh", "logaddexp", "logaddexp2"}
 SpecialFamily(z) ==
   {Cfg(p, "func", s, <<>>, <<>>, 0, NoAx, FALSE, 0, 0, <<>>, t, "rr", "array", NA) : p \in SpecialUnary, s \in {<<3>>, <<2, 2>>}, t \in {"zero1", "zeros"}}
   \cup {Cfg(p, "func", s, <<>>, <<>>, 0, NoAx, FALSE, 0, 0, <<>>, "big", "rr", "array", NA) : p \in SpecialBig \ {"logaddexp", "logaddexp2"}, s \in {<<4>>}}
-  \cup {Cfg(p, "func", <<4>>, <<4>>, <<>>, n, NoAx, FALSE, 0, 0, <<>>, "big", "rr", "array", NA) : p \in {"logaddexp", "logaddexp2"}, n \in {0, 1}}
+  \cup {Cfg(p, "func", <<4>>, <<4>>, <<>>, n, NoAx, FALSE, 0, 0, <<>>, t, "rr", "array", NA) : p \in {"logaddexp", "logaddexp2"}, n \in {0, 1},
+           t \in {"big", "huge"}}      \* "huge": both operands near +-1100 (log-probabilities: exp and 2** of either overflow or vanish, the function is smooth)
   \* x ** e at x = 0 for e in {0, 1, 2, 3} as int and as float (ib = 1), e ** x at e = 0 is a kink and left out
   \cup {Cfg("power", f, s, <<>>, <<>>, 0, NoAx, FALSE, e, fl, <<>>, t, "rr", "array", NA) : f \in {"func", "op"}, s \in {<<3>>}, e \in 0..3, fl \in {0, 1}, t \in {"zero1", "zeros"}}
   \* binary, one operand with zero entries, the other generic
   \cup {Cfg(p, "func", s, s, <<>>, n, NoAx, FALSE, w, 0, <<>>, "zero1", "rr", "array", NA) :
-          p \in {"multiply", "add", "subtract", "divide", "arctan2", "hypot", "maximum", "minimum", "logaddexp", "mod", "true_divide"},
+          p \in {"multiply", "add", "subtract", "divide", "arctan2", "hypot", "maximum", "minimum", "logaddexp", "mod", "true_divide", "power"},
           s \in {<<3>>}, n \in {0, 1}, w \in {0, 1}}          \* w = which operand holds the zero (divide / mod: only the numerator)
   \* reductions and contractions with zero entries
   \cup {Cfg(p, "func", s, <<>>, <<>>, 0, ax, kd, 0, 0, <<>>, t, "rr", "array", NA) :
